@@ -151,9 +151,11 @@ class _RawMixin:
         saved = (self._kex_complete, self._auth_complete,
                  self._auth_in_progress)
         self._kex_complete = self._auth_complete = True
+        self._injecting = True      # seen by the drivers' pkt_out sinks
         try:
             self.send_packet(pkttype, body)
         finally:
+            self._injecting = False
             (self._kex_complete, self._auth_complete,
              self._auth_in_progress) = saved
 
